@@ -299,6 +299,9 @@ pub struct XReplay {
     /// alpha-renamed twin without shadowing (same meaning by lexical scoping), if any
     #[serde(default)]
     pub unique_twin: Option<String>,
+    /// the shadowed spelling without user-level shadowing (pool names kept), if any
+    #[serde(default)]
+    pub deshadowed_twin: Option<String>,
 }
 
 #[derive(Clone, Debug, Default, Serialize, Deserialize)]
@@ -655,6 +658,7 @@ pub fn xworker(id: &str, tier: &str, seed: u64, w: u64, n: u64) -> i32 {
                     plan: EnvPlan::benign(),
                     minimised: true,
                     unique_twin: None,
+                    deshadowed_twin: None,
                 };
                 emit(serde_json::json!({"found": rp}));
             }
@@ -662,6 +666,7 @@ pub fn xworker(id: &str, tier: &str, seed: u64, w: u64, n: u64) -> i32 {
             continue;
         }
         // choose the program
+        let mut desh: Option<String> = None;
         let (kind, src, twin, argv, shadow): (String, String, Option<String>, Vec<String>, bool) = if id == "C20" {
             let (s, a) = c20_program(&mut rng);
             ("c20-args".into(), s, None, a, false)
@@ -672,7 +677,12 @@ pub fn xworker(id: &str, tier: &str, seed: u64, w: u64, n: u64) -> i32 {
             let cfg = FunCfg::swarm(&mut rng, if tier == "thorough" { 120 } else { 60 });
             let p = fungen::generate(&mut rng, &cfg);
             let argv = p.args.iter().map(|a| a.to_string()).collect();
-            ("fungen".into(), p.shadowed.clone(), if p.has_shadowing { Some(p.unique.clone()) } else { None }, argv, p.has_shadowing)
+            // programs that only use pool names (x0, a0, ...) without shadowing still get the unique
+            // twin: a failure that disappears with fresh names is a clash with generated names
+            if p.shadowed != p.unique {
+                desh = Some(p.deshadowed.clone());
+            }
+            ("fungen".into(), p.shadowed.clone(), if p.shadowed != p.unique { Some(p.unique.clone()) } else { None }, argv, p.has_shadowing)
         };
         if shadow {
             sum.stats.with_shadowing += 1;
@@ -700,6 +710,7 @@ pub fn xworker(id: &str, tier: &str, seed: u64, w: u64, n: u64) -> i32 {
                     plan: EnvPlan::benign(),
                     minimised: true,
                     unique_twin: None,
+                    deshadowed_twin: None,
                 };
                 emit(serde_json::json!({"found": rp}));
             }
@@ -723,6 +734,7 @@ pub fn xworker(id: &str, tier: &str, seed: u64, w: u64, n: u64) -> i32 {
                         plan,
                         minimised: true,
                         unique_twin: None,
+                    deshadowed_twin: None,
                     };
                     emit(serde_json::json!({"found": rp}));
                 }
@@ -780,6 +792,7 @@ pub fn xworker(id: &str, tier: &str, seed: u64, w: u64, n: u64) -> i32 {
                         plan,
                         minimised: false,
                         unique_twin: twin.clone(),
+                        deshadowed_twin: desh.clone(),
                     };
                     emit(serde_json::json!({"found": rp}));
                     break;
@@ -1014,7 +1027,22 @@ pub fn check(id: &str, tier: &str) -> i32 {
             t.source = tw.clone();
             t.unique_twin = None;
             match replay_x(&rt, &t) {
-                Ok(None) => class = "Capture".into(),
+                Ok(None) => {
+                    // passes with unique names: user-level shadowing (known capture defect) or a
+                    // clash between a user name and a compiler-generated name?
+                    class = "Capture".into();
+                    if let Some(dw) = &rp.deshadowed_twin {
+                        let mut t2 = rp.clone();
+                        t2.source = dw.clone();
+                        t2.unique_twin = None;
+                        t2.deshadowed_twin = None;
+                        if let Ok(Some((_, m))) = replay_x(&rt, &t2) {
+                            class = "NameClash".into();
+                            rp.source = dw.clone();
+                            rp.message = format!("a user-chosen name collides with a compiler-generated one (no shadowing in the program; it behaves correctly once all binders get fresh names): {m}");
+                        }
+                    }
+                }
                 Ok(Some(_)) => {
                     // fails without shadowing as well: report the simpler twin
                     rp.source = tw.clone();
@@ -1036,7 +1064,9 @@ pub fn check(id: &str, tier: &str) -> i32 {
         if *cnt > 4 {
             continue;
         }
-        if class != "Capture" {
+        if class == "NameClash" {
+            rp.class = "NameClash".into();
+        } else if class != "Capture" {
             minimise_x(&rt, &mut rp, 60);
         }
         if let Some(k) = known_match(&known, id, &rp.class, "x86_64", &rp.message, &rp.source) {
